@@ -19,7 +19,7 @@ From Coq Require Import ZArith List Bool.
 Import ListNotations.
 Open Scope Z_scope.
 
-Definition item := (Z * list Z)%type.
+Notation item := (Z * list Z)%type (only parsing).
 
 Record heap_ops := mkHeap {
   heapify : list item -> list item;       (* heapq.heapify(l) *)
